@@ -98,16 +98,19 @@ type World struct {
 	trace   []string
 	witness []string
 
-	faults   map[string]int
-	probes   map[string]int
-	states   map[string]int
-	viol     []Violation
-	start    time.Time
-	abort    string
-	lastSite string // schedule point of the task released last
-	sameSite int    // consecutive releases of the same task at the same point
-	spins    int    // times the spin breaker let simulated time pass
-	stalls   int    // times simulated time passed while tasks were runnable
+	faults    map[string]int
+	probes    map[string]int
+	states    map[string]int
+	viol      []Violation
+	start     time.Time
+	abort     string
+	lastSite  string        // schedule point of the task released last
+	sameSite  int           // consecutive releases of the same task at the same point
+	spins     int           // times the spin breaker let simulated time pass
+	stalls    int           // times simulated time passed while tasks were runnable
+	lastNow   time.Duration // simulated time at the previous step
+	sinceTick int           // steps since simulated time last moved
+	tickJump  time.Duration // next jump of the livelock breaker
 }
 
 const fnvOff = 14695981039346656037
@@ -421,6 +424,30 @@ func (w *World) loop(horizon *time.Timer) {
 			}
 		}
 		w.step++
+		// Two or more tasks can keep each other runnable for ever while simulated time hardly passes (a client that
+		// retries at once against a peer that answers at once). Budgets of the scenarios are in simulated time, so such a
+		// livelock would only end at the step cap, as an aborted run. When 10 000 steps have gone by within less than a simulated second, time
+		// is let pass (2 s, doubling up to 64 s).
+		if w.sinceTick++; w.sinceTick >= 10000 {
+			w.sinceTick = 0
+			now := time.Since(w.start)
+			if now-w.lastNow >= time.Second {
+				w.tickJump = 2 * time.Second // time is passing at a reasonable pace
+			} else if !w.cfg.NoStall {
+				d := w.tickJump
+				if d == 0 {
+					d = 2 * time.Second
+				}
+				if d < 64*time.Second {
+					w.tickJump = 2 * d
+				}
+				w.faults["livelock-breaker"]++
+				w.mu.Unlock()
+				time.Sleep(d)
+				w.mu.Lock()
+			}
+			w.lastNow = time.Since(w.start)
+		}
 		// A task that comes back to the same schedule point thousands of times in a row while nothing else runs is
 		// spinning (a loop that has stopped making progress). Simulated time only moves when nothing is runnable, so such
 		// a loop would freeze the clock for everybody; in a real process time passes regardless. Let it pass.
